@@ -2,7 +2,7 @@
 # applies every behaviour-preserving refactoring under refactors/ to /repo in turn, runs the checks of the properties whose
 # units read the touched file, restores /repo.  Expected: OK or exit 2 (undecided), never a VIOLATION.
 cd /verif
-export VX_NO_WITNESS=1
+[ -n "$VX_NO_WITNESS" ] || export VX_TARGET_CACHE=/var/tmp/vx_target_cache
 export VX_EVIDENCE_DIR=$(mktemp -d /var/tmp/vx_ref_evidence.XXXXXX)
 props_for() {
   case "$1" in
@@ -35,3 +35,4 @@ for d in refactors/*/; do
   echo "$r file=$f ::$res"
 done
 rm -rf "$VX_EVIDENCE_DIR"
+rm -rf /var/tmp/vx_target_cache
